@@ -21,9 +21,9 @@ func init() {
 			"os.Exit with a non-zero constant, or returning a non-nil error to main (which exits 1), is the failing exit",
 		},
 		Rules: []RuleDef{
-			{Name: "C05-FINALLY", Floor: 2, Doc: "every exit of TryStatement.GetValue has passed the finally region exactly once; no recover path bypasses it", Run: c05Run},
-			{Name: "C05-CATCH", Floor: 3, Doc: "catch clauses are tried in slice order, a match leaves the loop on every path, the catch variable is bound to the thrown control", Run: nop},
-			{Name: "C05-EXIT", Floor: 3, Doc: "a non-nil control from LoadAndRun cannot reach a nil-error return; main exits non-zero on error; the VM default handler shows the control and exits non-zero", Run: nop},
+			{Name: "C05-FINALLY", Floor: 1, Doc: "every exit of TryStatement.GetValue has passed the finally region exactly once; no recover path bypasses it", Run: c05Run},
+			{Name: "C05-CATCH", Floor: 1, Doc: "catch clauses are tried in slice order, a match leaves the loop on every path, the catch variable is bound to the thrown control", Run: nop},
+			{Name: "C05-EXIT", Floor: 1, Doc: "a non-nil control from LoadAndRun cannot reach a nil-error return; main exits non-zero on error; the VM default handler shows the control and exits non-zero", Run: nop},
 		},
 	})
 }
